@@ -76,12 +76,7 @@ impl Report {
         if self.viols.len() < self.max_viols
             && !self.viols.iter().any(|w| w.prop == v.prop && w.sig == v.sig && w.config == v.config)
         {
-            self.viols.push(v);
-        }
-    }
-
-    pub fn emit(&self, extra: &str) {
-        for v in &self.viols {
+            // printed at once: a later crash of the process must not swallow what was already observed
             println!(
                 "{{\"t\":\"viol\",\"prop\":\"{}\",\"sig\":\"{}\",\"detail\":\"{}\",\"config\":\"{}\",\"hist\":{},\"op\":{},\"opdesc\":\"{}\"}}",
                 v.prop,
@@ -92,7 +87,13 @@ impl Report {
                 v.op,
                 esc(&v.opdesc)
             );
+            use std::io::Write as _;
+            let _ = std::io::stdout().flush();
+            self.viols.push(v);
         }
+    }
+
+    pub fn emit(&self, extra: &str) {
         for s in &self.samples {
             println!("{{\"t\":\"sample\",\"text\":\"{}\"}}", esc(s));
         }
